@@ -18,6 +18,9 @@ NAME_PAIRS = [
     ("old_absolute_p0", "/etc/v", "w", 0, True),
     ("create_new_unsafe", None, "b/../../v", 1, True),
     ("delete_old_unsafe", "a/../../v", None, 1, True),
+    ("dotdot_inner_old", "a/sub/../../v", "b/w", 1, True),
+    ("dotdot_inner_new_p0", "w", "sub/../../v", 0, True),
+    ("curdir_then_dotdot", "a/./../v", "b/w", 1, True),
     ("both_safe", "a/d/w", "b/d/w", 1, False),
     ("stripped_away", "../w", "../w", 1, False),
     ("dots_in_names", "a/..w", "b/w..", 1, False),
